@@ -186,3 +186,22 @@ package intdataplane
 //@   property C44
 //@ lemma wlLess_total: forall a types.WorkloadEndpointID, b types.WorkloadEndpointID :: a != b ==> wlLess(a, b) || wlLess(b, a)
 //@   property C44
+
+//@ -- The IP set handed to the dataplane holds exactly the addresses of the two tables: an address is a member
+//@ -- iff some excluded workload or host endpoint currently has it.  (Inductive invariants over the two map
+//@ -- ranges; `visited` is the set of keys the range has already yielded.)
+//@ spec macro fxWepHas(m *flowtableExclusionManager, ip string) bool = exists id types.WorkloadEndpointID :: (id in m.wepIPs) && setOf(m.wepIPs[id])[ip]
+//@ spec macro fxHepHas(m *flowtableExclusionManager, ip string) bool = exists id types.HostEndpointID :: (id in m.hepIPs) && setOf(m.hepIPs[id])[ip]
+//@ func (*flowtableExclusionManager).CompleteDeferredWork
+//@   property C41
+//@   requires fxMapsOK(m)
+//@   option safety off
+//@   option setview
+//@   ghost at call AddOrReplaceIPSet: check forall ip string :: setOf(arg2)[ip] <==> (fxWepHas(m, ip) || fxHepHas(m, ip))
+//@   loop 1 invariant fresh(members) && m.wepIPs == old(m.wepIPs) && m.hepIPs == old(m.hepIPs) && m.dirty
+//@   loop 1 invariant forall ip string :: setOf(members)[ip] ==> (exists id types.WorkloadEndpointID :: visited[id] && (id in m.wepIPs) && setOf(m.wepIPs[id])[ip])
+//@   loop 1 invariant forall ip string, id types.WorkloadEndpointID :: visited[id] && (id in m.wepIPs) && setOf(m.wepIPs[id])[ip] ==> setOf(members)[ip]
+//@   loop 2 invariant fresh(members) && m.wepIPs == old(m.wepIPs) && m.hepIPs == old(m.hepIPs) && m.dirty
+//@   loop 2 invariant forall ip string :: setOf(members)[ip] ==> (fxWepHas(m, ip) || (exists id types.HostEndpointID :: visited[id] && (id in m.hepIPs) && setOf(m.hepIPs[id])[ip]))
+//@   loop 2 invariant forall ip string :: fxWepHas(m, ip) ==> setOf(members)[ip]
+//@   loop 2 invariant forall ip string, id types.HostEndpointID :: visited[id] && (id in m.hepIPs) && setOf(m.hepIPs[id])[ip] ==> setOf(members)[ip]
